@@ -566,6 +566,18 @@ def _bump(v: Any) -> Any:
     return None
 
 
+def _nudges(v: Any) -> list:
+    """The smallest changes of a float that are still another number: the next representable value, and a relative
+    step of a few 1e-14 (an identity built on rounded / ``%g``-formatted / tolerance-compared numbers merges them)."""
+    if isinstance(v, bool) or not isinstance(v, float) or v != v or v in (float("inf"), float("-inf")):
+        return []
+    out = [math.nextafter(v, math.inf)]
+    rel = v * (1.0 + 3e-14) if v != 0.0 else 3e-14
+    if rel not in out and rel != v:
+        out.append(rel)
+    return out
+
+
 def _seq_indices(n: int):
     """Positions of a sequence that get an element mutation: all of a short one; of a long one the edges, the middle and
     a few positions deep inside (a digest over a prefix or over head/tail samples misses exactly those)."""
@@ -740,6 +752,14 @@ def mutations(nodes: list, counters: Optional[Callable] = None) -> Iterator[Muta
                 depth = min(len(path), 2)
                 yield Mutation(f"param_value_depth{depth}", i, mu, [(i, i)],
                                {"parameter": pname, "path": list(path), "before": leaf, "after": new})
+                for nd in _nudges(leaf)[: 2 if not path else 1]:
+                    mu = clone()
+                    if path:
+                        _set_path(mu[i]["parameters"][pname], path, nd)
+                    else:
+                        mu[i]["parameters"][pname] = nd
+                    yield Mutation("param_value_nudged", i, mu, [(i, i)],
+                                   {"parameter": pname, "path": list(path), "before": repr(leaf), "after": repr(nd)})
                 # the smallest possible changes of a value: another scalar type that compares equal (2.0 -> 2), and for
                 # strings an edge blank / another line ending ('out.txt' -> 'out.txt ' names another file)
                 variants = []
@@ -792,6 +812,9 @@ def mutations(nodes: list, counters: Optional[Callable] = None) -> Iterator[Muta
                         nv = _bump(spec[k])
                         if nv is not None:
                             yield put(spec[:k] + [nv] + spec[k + 1:], "sweep_var_sequence_element", index=k)
+                        for nd in _nudges(spec[k])[:1]:
+                            if len(spec) != 2 or (k == 0 and nd < spec[1]) or (k == 1 and nd > spec[0]):
+                                yield put(spec[:k] + [nd] + spec[k + 1:], "sweep_var_sequence_element_nudged", index=k, after_repr=repr(nd))
                         nv = _retype(spec[k])
                         if nv is not None and len(spec) != 2:
                             yield put(spec[:k] + [nv] + spec[k + 1:], "sweep_var_sequence_element_retyped", index=k)
@@ -802,6 +825,10 @@ def mutations(nodes: list, counters: Optional[Callable] = None) -> Iterator[Muta
                 elif isinstance(spec, dict) and {"lo", "hi", "steps"} <= set(spec):
                     yield put(dict(spec, lo=spec["lo"] + 0.25), "sweep_var_bound", bound="lo")
                     yield put(dict(spec, hi=spec["hi"] + 0.25), "sweep_var_bound", bound="hi")
+                    for b in ("lo", "hi"):
+                        for nd in _nudges(float(spec[b])):
+                            if (b == "lo" and nd < spec["hi"]) or (b == "hi" and nd > spec["lo"]):
+                                yield put(dict(spec, **{b: nd}), "sweep_var_bound_nudged", bound=b, after_repr=repr(nd))
                     yield put(dict(spec, steps=spec["steps"] + 1), "sweep_var_steps")
                     if spec["steps"] > 1:   # with one step endpoint on/off is the same one-element domain
                         yield put(dict(spec, endpoint=not spec.get("endpoint", True)), "sweep_var_endpoint")
@@ -889,7 +916,10 @@ def struct_value(rng, depth: int = 0):
     from their sorted order, scalars of every JSON type."""
     r = rng.random()
     if depth >= 3 or r < 0.25:
-        return rng.choice([1.0, 2.5, -1.5, 0.0, 3, 0, True, False, None, "x", "out.txt", "", "a b"])
+        # strings beyond ASCII, and with surrogate code points (what a JSON-emitted "\\uD83D\\uDE00" or os.fsdecode of an
+        # undecodable file name yields): not UTF-8 encodable, so a canonical form must not depend on encoding them
+        return rng.choice([1.0, 2.5, -1.5, 0.0, 3, 0, True, False, None, "x", "out.txt", "", "a b",
+                           "caf\udce9.dat", "\ud83d\ude00", "\u03c0 caf\u00e9"])
     if r < 0.65:
         keys = rng.sample(_STRUCT_KEYS, rng.randint(2, 4))
         return {k: struct_value(rng, depth + 1) for k in keys}
